@@ -256,7 +256,8 @@ def content_type_rules(ctx, prog, ser, pk, spec, ox, rid):
     else:
         ctx.error("_ContentTypeMap.__getitem__", "content-type resolution not recognised (returns %s)" % sorted({str(r.value) for r in rows if r.end == "return"}))
     built = {}
-    for n in walk_own(fx.node):
+    fx_node = _expand(prog, fx, local_only=True)   # a local `case_insensitive(items)` helper is read in place
+    for n in walk_own(fx_node):
         if isinstance(n, ast.Assign) and isinstance(n.value, ast.Call) and dotted(n.value.func) == "CaseInsensitiveDict" and n.value.args:
             ge = n.value.args[0]
             if isinstance(ge, ast.GeneratorExp) and isinstance(ge.elt, ast.Tuple):
@@ -266,7 +267,7 @@ def content_type_rules(ctx, prog, ser, pk, spec, ox, rid):
     exp = {"overrides": ("o.partName", "o.contentType", "types_elm.override_lst", True),
            "defaults": ("d.extension", "d.contentType", "types_elm.default_lst", True)}
     # the locals by role: the constructor is called cls(<overrides>, <defaults>)
-    ctor_ = [n.value for n in walk_own(fx.node) if isinstance(n, ast.Return) and isinstance(n.value, ast.Call) and len(n.value.args) == 2
+    ctor_ = [n.value for n in walk_own(fx_node) if isinstance(n, ast.Return) and isinstance(n.value, ast.Call) and len(n.value.args) == 2
              and all(isinstance(a, ast.Name) for a in n.value.args)]
     rn_ = {ctor_[0].args[0].id: "overrides", ctor_[0].args[1].id: "defaults"} if len(ctor_) == 1 else {}
     built = {rn_.get(k, k): v for k, v in built.items()}
